@@ -522,6 +522,8 @@ def part_grammar(ctx, ref):
                 return True
             if x == "LP" and prev is not None and (prev == "RP" or prev.startswith("a")):
                 return True         # `f ( x )` is a call: outside the operator fragment
+            if x == "Bang" and prev is not None and (prev == "RP" or prev.startswith("a")):
+                return True         # `x !` is TypeScript's non-null assertion (C03's subject)
             prev = x
         return False
     cases = [c for c in cases + bad if not ts_ambiguous(c) and not operand_position_hazard(c)]
